@@ -2,7 +2,8 @@
 A = ('Trusted base: the API summary tables of the checker (pandas / NumPy / scikit-learn / matplotlib behaviour, '
      'DESIGN.md A1), the Python semantics of the supported AST subset as encoded in sa/symexec.py (A3). '
      'Nothing of the package is imported or executed. ')
-A2 = 'Numeric kernels are analysed in exact-real arithmetic (IEEE effects within an ulp of a boundary are outside the model). '
+A2 = ('Numeric kernels are analysed in exact-real arithmetic; that binary64 agrees with it on the switching points of floor / ceil / '
+      'round / int is decided separately from the shape of the expressions (rounding discipline, DESIGN 2.8 E7c). ')
 
 
 def _o(technique, text, note):
@@ -26,24 +27,30 @@ REGISTRY = {
               'MAX_HITS_OKTA0 hits were cropped.',
               'The bridge from the atoms to the wording of the property uses the sortedness of the table (checked).'),
     'C03': _o('provenance-term comparison (distinct (ceilo, dt) counting), linear normal form of the okta guard chain, '
-              'kernel monotonicity of perc2okta',
+              'kernel monotonicity of perc2okta, rounding-discipline analysis of the percentage expression (exact on the '
+              'switching points of the okta binning)',
               'n_hits, max_hits_per_layer, perc and the ordered 0 / 8 / binned okta chain are compared as terms with the '
               'specification (rows instead of distinct measurements, de-duplication across ceilometers, a swapped or '
-              'strict buffer comparison all change the term); perc2okta is shown non-decreasing with range [0, 8].',
+              'strict buffer comparison all change the term); perc2okta is shown non-decreasing with range [0, 8]; the '
+              'percentage is computed without an intermediate rounding error wherever perc2okta switches (n/max*100, not '
+              'n*(100/max)).',
               A2 + 'Distinctness of measurements is NumPy float equality on dt.'),
     'C04': _o('argument-binding and selection terms at every call of calc_base_height (callers inlined), reducer table '
-              'for the statistics columns, kernel analysis of height2code',
+              'for the statistics columns, kernel analysis of height2code, rounding-discipline analysis of the look-back count',
               'Structural necessary conditions: look-back and percentile bound from the chunk snapshot at report and '
               'decision time, selection = members (minus excluded ceilometers when enough remain) of the time-sorted '
               'data, tail slice and percentile in the routine, mean/std/min/max/thickness/fluffiness of the members, '
-              'code = floor (never round) of base/100, table sorted by ascending base. The numerical equality with the '
+              'code = floor (never round) of base/100, table sorted by ascending base, look-back count exact where int() '
+              'switches. The numerical equality with the '
               'percentile is not claimed.',
               A2 + 'np.percentile of a non-empty selection lies between its min and max (A1).'),
     'C05': _o('id-space arithmetic on the generated layer ids (linear form, stride vs component cap, offset provably '
-              'above the inherited ids), mask agreement of label write-backs, who-may-write on the hit columns',
+              'above the inherited ids), mask agreement of label write-backs, who-may-write on the hit columns, '
+              'propositional cover of the per-group loop of find_layers by its ncomp stores',
               'Decides the structural part: generated and inherited layer ids are disjoint, every stage fills null ids '
               'from its parent stage, sentinel -1 handled consistently by counters and table builder, cluster labels are '
-              'written to exactly the rows fed to the clustering, no stage modifies or drops hits. That scikit-learn '
+              'written to exactly the rows fed to the clustering, no stage modifies or drops hits, every path through the '
+              'per-group loop of find_layers rewrites ncomp (repeated calls). That scikit-learn '
               'returns one label per row and that mixture components are populated is not claimed.',
               'One label per fed row from scikit-learn (A1).'),
     'C06': _o('provenance of the heights handed to calc_base_height (must derive from the time-sorted data), sibling '
@@ -59,11 +66,14 @@ REGISTRY = {
               'identity test on the MSA, on a frame with normalised index; the flag counts exactly the cropped hits.',
               'Equality of the tables of two related runs follows on paper from these facts and C09.'),
     'C08': _o('raise-site census (class of every raised exception, no handlers), dominating-guard rules in front of '
-              'third-party calls with preconditions, decorator pass-through',
+              'third-party calls with preconditions, decorator pass-through, validation-before-use ordering on the raw '
+              'input, index typestate',
               'Decides the second sentence of the property and the guard discipline: every raise is AmpycloudError, no '
               'handler swallows, and each third-party precondition known to bite (>= 2 samples for agglomerative '
               'clustering, populated mixture models, non-empty percentile selection, single-point LOWESS, Python-int '
-              'oktas) is established by a dominating guard at the wrapper or at every call site. Termination/totality of '
+              'oktas) is established by a dominating guard at the wrapper or at every call site; the raw input is only '
+              'passed along or deep-copied until its type has been tested; label-based selections run on a normalised '
+              'index. Termination/totality of '
               'the third-party numerics is NOT claimed.', ''),
     'C09': _o('effect analysis (global-RNG consumers confined under tmp_seed), explicit random_state binding across call '
               'sites, try/finally typestate of tmp_seed, set-iteration and clock-taint scans, module-state confinement',
@@ -95,7 +105,7 @@ REGISTRY = {
               'kill sets of later-stage facts, refusal-before-mutation',
               'Every dereference of a stage product is dominated by a presence guard raising AmpycloudError; a stage that '
               'overwrites a later stage\'s product refuses when it exists; no call-order refusal is reachable after a '
-              'write to chunk state; each stage resets its own id column before reading it. Holds for every call '
+              'write to chunk state; each stage resets its own id column before reading it or the hit table as a whole. Holds for every call '
               'sequence because it is a property of each method in every abstract state.',
               'Equality of recomputed tables rests on determinism (C09).'),
     'C15': _o('census and classification of the refusal conditions of check_data_consistency (own condition of every '
@@ -120,21 +130,27 @@ REGISTRY = {
         'note': A + 'The model is extracted from the source on every run (no hand-written model), so there are no traces '
                     'to validate against the implementation. Okta values are integers.'},
     'C18': _o('decision-table extraction for okta2code; piecewise-affine abstract interpretation (floor/ceil/round aware) '
-              'of height2code and of the NumPy masked-assignment code of perc2okta',
+              'of height2code and of the NumPy masked-assignment code of perc2okta; rounding-discipline analysis (lattice '
+              'propagation from each discretisation to the leaves of its argument)',
               'okta2code is evaluated symbolically for integers -2..11 and non-integers; height2code and perc2okta are '
               'reduced to piecewise functions of one real variable, on which range, refusal domain, rounding direction, '
-              'bin edges and monotonicity are decided for all reals in the domain at once.', A2),
+              'bin edges and monotonicity are decided for all reals in the domain at once; every operation in front of a '
+              'floor / ceil / round / int is shown exact on the points where it switches.', A2),
     'C19': _o('NaN-safety census of reductions; exact Laurent-polynomial algebra showing undo(do(v)) == v and a forward '
-              'coefficient 1/positive for each scaling mode',
+              'coefficient 1/positive for each scaling mode; shape-instantiated polynomial evaluation of step scaling '
+              '(0..5 symbolic step edges: tiling, continuity at every edge, inverse edges = images of the input edges)',
               'Claims only the structural clauses: reductions over the data are NaN-safe, all-NaN input is passed through '
               'before parameters are derived, each mode\'s undo is the algebraic inverse of its do with the same atoms, '
-              'the forward map is increasing, the minimum range is honoured symmetrically. Continuity of step scaling '
-              'across steps is NOT decided.', A2 + 'scale > 0, max > min, step scales > 0 (A5).'),
+              'the forward map is increasing, the minimum range is honoured symmetrically, step scaling is continuous '
+              'across its steps and its inverse switches segment at the images of the step edges (for 0..5 edges, '
+              'symbolic edges and scales). That min-max scaling lands in [0, 1] numerically is not claimed.', A2 + 'scale > 0, max > min, step scales > 0 (A5).'),
     'C20': _o('effect analysis of plot code (rcParams writers, figure lifecycle under `not show`, file writes under '
-              '`save_stem is not None`), chunk read-only summaries, modulo rule on style-cycle subscripts',
+              '`save_stem is not None`), chunk read-only summaries, modulo rule on style-cycle subscripts, '
+              'no-state-between-plots rule (memoised results never modified, no module-level writes on the plotting path)',
               'No unscoped writer of matplotlib global configuration exists in the package and public figure-creating '
               'functions run inside plt.style.context; the figure is closed on every normal show=False path; files are '
               'written once per requested format only when a stem is given; plot code has no write effect on the chunk; '
-              'style cycles are indexed modulo their length. Totality of matplotlib is not claimed.', ''),
+              'style cycles are indexed modulo their length; nothing kept between two plots is altered. Totality of '
+              'matplotlib is not claimed.', ''),
 }
 NOT_APPLICABLE = {}
